@@ -6,6 +6,9 @@ import vlib
 
 
 def judge(ctx, programs, name, chunks=None, timeout=3600, profile="release"):
+    # term trees are built twice: with every node the crate's own object (the default) and with every child a
+    # user-defined Aml implementor that only serialises itself (so no container can rely on more than to_aml_bytes)
+    programs = list(programs) + [dict(p, native=False) for p in programs if p.get("fam") == "aml" and not p.get("summary")]
     # the recursive-descent parser recurses once per term: give the evaluator a deeper stack than the default 16m
     return vlib.run_and_judge(ctx, programs, "Trace_Aml.cfg", "Trace_Aml.tla", name, chunks=chunks, timeout=timeout, profile=profile,
                               env={"TLC_XSS": "256m"})
